@@ -174,6 +174,10 @@ theorem firstSome_split (pre post : List Verdict) (v : Verdict)
     simp only [List.cons_append, firstSome]
     exact ih (fun y hy => hpre y (List.mem_cons_of_mem _ hy))
 
+theorem firstSome_cons (v : Verdict) (vs : List Verdict) :
+    firstSome (v :: vs) = if v = .none then firstSome vs else v := by
+  cases v <;> simp [firstSome]
+
 theorem firstSome_all_none (vs : List Verdict) (h : ∀ x ∈ vs, x = .none) : firstSome vs = .none := by
   induction vs with
   | nil => rfl
@@ -197,6 +201,7 @@ theorem firstSome_mem (vs : List Verdict) : firstSome vs = .none ∨ firstSome v
     | blocked l => exact Or.inr (by simp [firstSome])
     | modReq l t => exact Or.inr (by simp [firstSome])
     | modResp l rc vs => exact Or.inr (by simp [firstSome])
+    | hashResp l v4 ip => exact Or.inr (by simp [firstSome])
 
 /-- No request filter ever blocks or allows: each yields nothing or a rewrite. -/
 theorem reqFilterVerdicts_shape (c : Cfg) (host : Host) (qt : QType) :
@@ -206,7 +211,7 @@ theorem reqFilterVerdicts_shape (c : Cfg) (host : Host) (qt : QType) :
     intro id f
     unfold hashVerdict
     split
-    · exact Or.inr rfl
+    · split <;> exact Or.inr rfl
     · exact Or.inl rfl
   have ss : ∀ id rs, ssVerdict id rs host qt = .none ∨ (ssVerdict id rs host qt).isRewrite = true := by
     intro id rs
@@ -222,5 +227,248 @@ theorem reqFilterVerdicts_shape (c : Cfg) (host : Host) (qt : QType) :
   · cases hc : c.genSS <;> simp [optV, hc] at h; subst h; exact ss ..
   · cases hc : c.ytSS <;> simp [optV, hc] at h; subst h; exact ss ..
   · cases hc : c.newReg <;> simp [optV, hc] at h; subst h; exact hash ..
+
+/-! ### Rule-level readings of the hit lists -/
+
+theorem mem_netHits (id : ListId) (rs : List Rule) (host : Host) (qt : QType) (y : NetHit) :
+    y ∈ netHits id rs host qt ↔
+      ∃ d a ts, Rule.net d a ts ∈ rs ∧ domMatch d host = true ∧ ts.ok qt = true ∧ y = (id, a, ts.count) := by
+  unfold netHits
+  simp only [List.mem_filterMap]
+  constructor
+  · rintro ⟨r, hr, h⟩
+    cases r with
+    | net d a ts =>
+      simp only at h
+      split at h
+      · rename_i hc
+        simp only [Bool.and_eq_true] at hc
+        cases h
+        exact ⟨d, a, ts, hr, hc.1, hc.2, rfl⟩
+      · cases h
+    | rewrite d rw => simp at h
+    | hosts v6 d => simp at h
+  · rintro ⟨d, a, ts, hr, h1, h2, rfl⟩
+    exact ⟨_, hr, by simp [h1, h2]⟩
+
+theorem mem_allNets (srcs : List (ListId × List Rule)) (host : Host) (qt : QType) (y : NetHit) :
+    y ∈ allNets srcs host qt ↔ ∃ p ∈ srcs, y ∈ netHits p.1 p.2 host qt := by
+  unfold allNets
+  simp [List.mem_flatMap]
+
+theorem mem_rewriteHits (rs : List Rule) (host : Host) (rw : Rewrite) :
+    rw ∈ rewriteHits rs host ↔ ∃ d, Rule.rewrite d rw ∈ rs ∧ domMatch d host = true := by
+  unfold rewriteHits
+  simp only [List.mem_filterMap]
+  constructor
+  · rintro ⟨r, hr, h⟩
+    cases r with
+    | net d a ts => simp at h
+    | rewrite d rw' =>
+      simp only at h
+      split at h
+      · rename_i hc
+        cases h
+        exact ⟨d, hr, hc⟩
+      · cases h
+    | hosts v6 d => simp at h
+  · rintro ⟨d, hr, h1⟩
+    exact ⟨_, hr, by simp [h1]⟩
+
+theorem mem_hostsHits (id : ListId) (rs : List Rule) (host : Host) (qt : QType) (v6 : Bool) (l : ListId) :
+    l ∈ hostsHits id rs host qt v6 →
+      l = id ∧ Rule.hosts v6 host ∈ rs ∧ netHits id rs host qt = [] := by
+  unfold hostsHits
+  split
+  · rename_i hn
+    simp only [List.mem_filterMap]
+    rintro ⟨r, hr, h⟩
+    cases r with
+    | net d a ts => simp at h
+    | rewrite d rw => simp at h
+    | hosts f d =>
+      simp only at h
+      split at h
+      · rename_i hc
+        simp only [Bool.and_eq_true, beq_iff_eq] at hc
+        cases h
+        obtain ⟨h1, h2⟩ := hc
+        subst h1; subst h2
+        exact ⟨rfl, hr, by simpa using hn⟩
+      · cases h
+  · intro h; cases h
+
+theorem terminal_mem (rws : List Rewrite) (x : Rewrite) (h : terminal rws = some x) : x ∈ rws := by
+  induction rws with
+  | nil => simp [terminal] at h
+  | cons r rs ih =>
+    cases r with
+    | cname t => simp [terminal] at h; subst h; exact List.mem_cons_self ..
+    | rcode rc => simp [terminal] at h; subst h; exact List.mem_cons_self ..
+    | ip4 v => simp only [terminal] at h; exact List.mem_cons_of_mem _ (ih h)
+    | ip6 v => simp only [terminal] at h; exact List.mem_cons_of_mem _ (ih h)
+
+/-- Rewrites that are present and do not send the name to itself always produce a verdict. -/
+theorem processRewrites_ne_none (host : Host) (qt : QType) (rws : List Rewrite) (id : ListId)
+    (hne : rws ≠ []) (hself : Rewrite.cname host ∉ rws) : processRewrites host qt rws id ≠ .none := by
+  unfold processRewrites
+  have : rws.isEmpty = false := by cases rws <;> simp_all
+  simp only [this, Bool.false_eq_true, if_false]
+  cases ht : terminal rws with
+  | none => simp
+  | some x =>
+    cases x with
+    | cname t =>
+      have hm := terminal_mem _ _ ht
+      have : (t == host) = false := by
+        apply Bool.eq_false_iff.mpr
+        intro he
+        have := beq_iff_eq.mp he
+        subst this
+        exact hself hm
+      simp [this]
+    | rcode rc => simp
+    | ip4 v => simp
+    | ip6 v => simp
+
+theorem processRewrites_nil (host : Host) (qt : QType) (id : ListId) :
+    processRewrites host qt [] id = .none := by
+  simp [processRewrites]
+
+theorem firstRewrite_none_of_no_hits (host : Host) (qt : QType) (srcs : List (ListId × List Rule))
+    (h : ∀ p ∈ srcs, rewriteHits p.2 host = []) : firstRewrite host qt srcs = .none := by
+  induction srcs with
+  | nil => rfl
+  | cons p rest ih =>
+    obtain ⟨id, rs⟩ := p
+    have h0 := h (id, rs) (List.mem_cons_self ..)
+    simp only at h0
+    simp only [firstRewrite, h0, processRewrites_nil]
+    exact ih (fun q hq => h q (List.mem_cons_of_mem _ hq))
+
+/-! ### `combined`: allow beats block, block blocks, for any list of sources -/
+
+theorem combined_allow (srcs : List (ListId × List Rule)) (host : Host) (qt : QType)
+    (hallow : ∃ y ∈ allNets srcs host qt, y.2.1 = true) :
+    ∃ r ∈ allNets srcs host qt, r.2.1 = true ∧ combined srcs host qt = .allowed r.1 := by
+  obtain ⟨r, hr, ha⟩ := basicFrom_allow (allNets srcs host qt) Option.none (Or.inr hallow)
+  have hm : r ∈ allNets srcs host qt := by
+    rcases basicFrom_mem _ _ _ hr with h | h
+    · cases h
+    · exact h
+  refine ⟨r, hm, ha, ?_⟩
+  unfold combined toInternal basicRule
+  obtain ⟨id, al, n⟩ := r
+  simp only at ha
+  subst ha
+  simp [hr]
+
+theorem combined_block (srcs : List (ListId × List Rule)) (host : Host) (qt : QType)
+    (hnoallow : ∀ y ∈ allNets srcs host qt, y.2.1 = false)
+    (hblock : allNets srcs host qt ≠ [] ∨ allHosts srcs host qt false ≠ [] ∨ allHosts srcs host qt true ≠ []) :
+    ∃ l, combined srcs host qt = .blocked l ∧
+      ((∃ y ∈ allNets srcs host qt, y.1 = l) ∨ l ∈ allHosts srcs host qt false ∨ l ∈ allHosts srcs host qt true) := by
+  unfold combined
+  by_cases hn : allNets srcs host qt = []
+  · unfold toInternal basicRule
+    rw [hn]
+    simp only [basicFrom]
+    rcases hblock with h | h | h
+    · exact absurd hn h
+    · cases h4 : allHosts srcs host qt false with
+      | nil => exact absurd h4 h
+      | cons a as =>
+        cases h6 : allHosts srcs host qt true with
+        | nil => exact ⟨a, rfl, Or.inr (Or.inl (List.mem_cons_self ..))⟩
+        | cons b bs =>
+          by_cases hq : (qt == qtAAAA) = true
+          · exact ⟨b, by simp [hq], Or.inr (Or.inr (List.mem_cons_self ..))⟩
+          · exact ⟨a, by simp [hq], Or.inr (Or.inl (List.mem_cons_self ..))⟩
+    · cases h6 : allHosts srcs host qt true with
+      | nil => exact absurd h6 h
+      | cons b bs =>
+        cases h4 : allHosts srcs host qt false with
+        | nil => exact ⟨b, rfl, Or.inr (Or.inr (List.mem_cons_self ..))⟩
+        | cons a as =>
+          by_cases hq : (qt == qtAAAA) = true
+          · exact ⟨b, by simp [hq], Or.inr (Or.inr (List.mem_cons_self ..))⟩
+          · exact ⟨a, by simp [hq], Or.inr (Or.inl (List.mem_cons_self ..))⟩
+  · obtain ⟨r, hr, hf⟩ := basicFrom_block (allNets srcs host qt) Option.none
+      (by intro x hx; cases hx) hnoallow (Or.inr hn)
+    have hm : r ∈ allNets srcs host qt := by
+      rcases basicFrom_mem _ _ _ hr with h | h
+      · cases h
+      · exact h
+    obtain ⟨id, al, n⟩ := r
+    simp only at hf
+    subst hf
+    exact ⟨id, by simp [toInternal, basicRule, hr], Or.inl ⟨_, hm, rfl⟩⟩
+
+theorem combined_none (srcs : List (ListId × List Rule)) (host : Host) (qt : QType)
+    (h1 : allNets srcs host qt = []) (h2 : allHosts srcs host qt false = [])
+    (h3 : allHosts srcs host qt true = []) : combined srcs host qt = .none := by
+  simp [combined, toInternal, basicRule, basicFrom, h1, h2, h3]
+
+/-! ### `GetDNSBasicRule` picks the first rule of the highest priority -/
+
+theorem higher_irrefl (a : NetHit) : higher a a = false := by
+  obtain ⟨i, al, n⟩ := a
+  cases al <;> simp [higher]
+
+/-- `y ≤ b < x` gives `y < x`, hence not `y > x`. -/
+theorem higher_false_of (y b x : NetHit) (h1 : higher y b = false) (h2 : higher x b = true) :
+    higher y x = false := by
+  obtain ⟨_, ya, yn⟩ := y; obtain ⟨_, ba, bn⟩ := b; obtain ⟨_, xa, xn⟩ := x
+  cases ya <;> cases ba <;> cases xa <;> simp_all [higher] <;> omega
+
+/-- `y ≤ b < x` gives `x > y`. -/
+theorem higher_negtrans (y b x : NetHit) (h1 : higher y b = false) (h2 : higher x b = true) :
+    higher x y = true := by
+  obtain ⟨_, ya, yn⟩ := y; obtain ⟨_, ba, bn⟩ := b; obtain ⟨_, xa, xn⟩ := x
+  cases ya <;> cases ba <;> cases xa <;> simp_all [higher] <;> omega
+
+theorem basicFrom_first_max (b : NetHit) (done hits : List NetHit)
+    (hmax : ∀ y ∈ done, higher y b = false)
+    (hfirst : ∃ p1 p2, done = p1 ++ b :: p2 ∧ ∀ y ∈ p1, higher b y = true) :
+    ∃ r, basicFrom (some b) hits = some r ∧ (∀ y ∈ done ++ hits, higher y r = false) ∧
+      ∃ p1 p2, done ++ hits = p1 ++ r :: p2 ∧ ∀ y ∈ p1, higher r y = true := by
+  induction hits generalizing b done with
+  | nil =>
+    refine ⟨b, rfl, by simpa using hmax, ?_⟩
+    simpa using hfirst
+  | cons x xs ih =>
+    simp only [basicFrom]
+    have hassoc : done ++ x :: xs = (done ++ [x]) ++ xs := by simp
+    rw [hassoc]
+    by_cases hx : higher x b = true
+    · simp only [hx, if_true]
+      apply ih
+      · intro y hy
+        rcases List.mem_append.mp hy with h | h
+        · exact higher_false_of y b x (hmax y h) hx
+        · simp at h; subst h; exact higher_irrefl _
+      · exact ⟨done, [], rfl, fun y hy => higher_negtrans y b x (hmax y hy) hx⟩
+    · have hx' : higher x b = false := by simpa using hx
+      simp only [hx', Bool.false_eq_true, if_false]
+      apply ih
+      · intro y hy
+        rcases List.mem_append.mp hy with h | h
+        · exact hmax y h
+        · simp at h; subst h; exact hx'
+      · obtain ⟨p1, p2, hd, hp⟩ := hfirst
+        exact ⟨p1, p2 ++ [x], by simp [hd], hp⟩
+
+/-- **The deciding rule.**  `GetDNSBasicRule` returns a rule that no matching rule outranks
+(allow over block, then more modifiers), and the earliest such one in source order. -/
+theorem basicRule_first_max (hits : List NetHit) (hne : hits ≠ []) :
+    ∃ r, basicRule hits = some r ∧ (∀ y ∈ hits, higher y r = false) ∧
+      ∃ p1 p2, hits = p1 ++ r :: p2 ∧ ∀ y ∈ p1, higher r y = true := by
+  cases hits with
+  | nil => exact absurd rfl hne
+  | cons x xs =>
+    have := basicFrom_first_max x [x] xs
+      (by intro y hy; simp at hy; subst hy; exact higher_irrefl _)
+      ⟨[], [], rfl, by intro y hy; cases hy⟩
+    simpa [basicRule, basicFrom] using this
 
 end Agd.Filter
